@@ -27,6 +27,13 @@ All == {[bps0 |-> b, script |-> q, family |-> "general"] : b \in {"None", "A", "
        (* and memory reads at the end of the address space while stopped: always driven on the programs built for them          *)
        \cup {[bps0 |-> "B", script |-> q, family |-> "nextover"] : q \in {<<"wait", "next">>, <<"wait", "next", "next">>, <<"wait", "next", "stepOut">>}}
        \cup {[bps0 |-> "A", script |-> <<"wait", "evalmem", "inspect">>, family |-> "evalmem"]}
+       (* round 5: a step where the uninterrupted run ends; breakpoints in two source files; a client that relies on the protocol's   *)
+       (* default line base; requests outside the happy path followed by a plain one                                                   *)
+       \cup {[bps0 |-> "A", script |-> q, family |-> "stepend"] : q \in {<<"wait", "stepIn", "stepIn">>, <<"wait", "next", "next">>, <<"wait", "stepIn", "stepOut">>}}
+       \cup {[bps0 |-> "A", script |-> <<"setBpsB", "wait", "continue", "wait", "continue", "wait">>, family |-> "twofile"]}
+       \cup {[bps0 |-> "A", script |-> <<"wait", "stepIn">>, family |-> "linesdefault"]}
+       \cup {[bps0 |-> "A", script |-> <<"wait", "malformed:" \o k, "inspect">>, family |-> "malformed"] :
+               k \in {"unknown_command", "variables_reference", "setbps_no_path", "setbps_line0", "completions_end", "event_message"}}
 VARIABLE x
 Init == x = 0 /\ ndJsonSerialize(IOEnv.OUT, SetToSeq(All)) /\ PrintT(<<"CASES", Cardinality(All)>>)
 Next == UNCHANGED x
